@@ -505,6 +505,176 @@ def corr_concrete(ctx, d):
     compare_lines(ctx, "TransformationCorrection with call history on one object (cache), exact", lines, impl)
 
 
+# ---------------------------------------------------------------------------- round 4: curvature, illumination, active drift vs model
+
+
+def bs_tokens(c):
+    return " ".join(fmt(c[k]) for k in ("hb", "hs", "hoff", "vb", "vs", "voff"))
+
+
+def bs_kwargs(c):
+    return dict(horizontal_bulge=float(c["hb"]), horizontal_stretch=float(c["hs"]), horizontal_center_offset=int(c["hoff"]),
+                vertical_bulge=float(c["vb"]), vertical_stretch=float(c["vs"]), vertical_center_offset=int(c["voff"]))
+
+
+def rand_bs(rng, what):
+    z = Fr(0)
+    q = lambda: Fr(rng.randint(-4, 4), 256)  # noqa: E731
+    c = dict(hb=z, hs=z, hoff=Fr(rng.randint(-1, 1)), vb=z, vs=z, voff=Fr(rng.randint(-1, 1)))
+    if what in ("bulge", "both"):
+        c["hb"], c["vb"] = q(), q()
+    if what in ("stretch", "both"):
+        c["hs"], c["vs"] = q(), q()
+    return c
+
+
+def corr_round4(ctx, d):
+    rng = ctx.rng
+    # --- _transform_coordinates through the public simple_curvature_correction: resampling the linear ramp fields X(i,j) = j and
+    # Y(i,j) = i with linear interpolation returns the transformed coordinates themselves wherever they lie inside the array
+    lines, vals, masks = [], [], []
+    for i in range(ctx.pick(12, 120)):
+        c = rand_bs(rng, ("bulge", "stretch", "both", "none")[i % 4])
+        ny, nx = rng.randint(2, 7), rng.randint(2, 7)
+        lines.append(f"tcoords {bs_tokens(c)} {nx} {ny}")
+
+        def run():
+            cc = d.CurvatureCorrection(config={}, interpolation_order=1)
+            X, Y = np.meshgrid(np.arange(nx, dtype=np.float64), np.arange(ny, dtype=np.float64))
+            return np.concatenate([cc.simple_curvature_correction(X, **bs_kwargs(c)).ravel(), cc.simple_curvature_correction(Y, **bs_kwargs(c)).ravel()])
+
+        vals.append(call(run))
+    got = ctx.model(lines)
+    diffs, worst, compared = [], 0.0, 0
+    for k, (g, v) in enumerate(zip(got, vals)):
+        if isinstance(v, Raised) or g.startswith("!"):
+            diffs.append(k)
+            continue
+        xs, ys = [[Fr(t) for t in part.split()] for part in g.split("|")]
+        nx, ny = int(lines[k].split()[-2]), int(lines[k].split()[-1])
+        v = np.asarray(v, float)
+        if len(v) != 2 * len(xs):
+            diffs.append(k)
+            continue
+        for idx, (x, y) in enumerate(zip(xs, ys)):
+            if 0 <= x <= nx - 1 and 0 <= y <= ny - 1:  # inside: interpolation of the ramp is the coordinate itself
+                compared += 1
+                e = max(abs(v[idx] - float(x)), abs(v[len(xs) + idx] - float(y)))
+                worst = max(worst, e)
+                if e > 1e-4:
+                    diffs.append(k)
+                    break
+    _c = ctx.cov.setdefault("correspondence", {})
+    name = "CurvatureCorrection coordinate transform (bulge/stretch polynomial) via simple_curvature_correction on ramp fields (1e-4)"
+    _c[name] = {"cases": len(lines), "disagreements": len(diffs), "compared_points": compared}
+    ctx.cov.setdefault("measured_float_error", {})[name] = worst
+    for l in lines:
+        ctx.count((name, l))
+    if diffs:
+        k = diffs[0]
+        ctx.mark("CORR-BROKEN", {"correspondence": name, "request": lines[k], "model": got[k][:300], "impl": str(vals[k])[:300], "n_diffs": len(diffs)})
+        ctx.log(f"correspondence {name}: {len(diffs)} disagreements, e.g. {lines[k]}")
+    # --- whole CurvatureCorrection.correct_array with order-0 interpolation: stage pipeline, grid order, resize_factor, cache
+    lines, impl = [], []
+    for i in range(ctx.pick(24, 240)):
+        stages = {"init": rand_bs(rng, "bulge") if i % 5 == 0 else None, "bulge": rand_bs(rng, "bulge") if i % 2 == 0 else None,
+                  "stretch": rand_bs(rng, "stretch") if i % 3 != 1 else None}
+        f = Fr(1) if i % 4 else Fr(rng.choice([2, 1]), rng.choice([1, 2]))
+        shape = (rng.randint(2, 6), rng.randint(2, 6))
+        hist_shapes = [shape] * rng.randint(0, 2) if i % 6 else [(rng.randint(2, 6), rng.randint(2, 6))]
+        mk = lambda sh: np.array([rng.randint(1, 99) for _ in range(sh[0] * sh[1])], dtype=np.float64).reshape(sh)  # noqa: E731
+        hist, a = [mk(sh) for sh in hist_shapes], mk(shape)
+        tok = lambda x: " ".join(str(n) for n in x.shape) + " " + " ".join(fmt(v) for v in x.ravel())  # noqa: E731
+        lines.append(f"curv {fmt(f)} " + " ".join("1 " + bs_tokens(stages[k]) if stages[k] else "0" for k in ("init", "bulge", "stretch"))
+                     + f" {len(hist)} " + " ".join(tok(h) for h in hist) + (" " if hist else "") + tok(a))
+
+        def run():
+            cfg = {k: {kk: vv for kk, vv in bs_kwargs(v).items()} for k, v in stages.items() if v}
+            cc = d.CurvatureCorrection(config=cfg, interpolation_order=0, resize_factor=float(f))
+            for h in hist:
+                cc.correct_array(h.copy())
+            out = np.asarray(cc.correct_array(a.copy()))
+            return " ".join(str(n) for n in out.shape) + " | " + " ".join(fmt(v) for v in out.ravel())
+
+        r = call(run)
+        impl.append(repr(r) if isinstance(r, Raised) else r)
+    got = ctx.model(lines)
+    diffs, masked, total = [], 0, 0
+    for k, (g, v) in enumerate(zip(got, impl)):
+        gt, vt = g.split(), str(v).split()
+        if len(gt) != len(vt):
+            diffs.append(k)
+            continue
+        for a_, b_ in zip(gt, vt):
+            total += 1
+            if a_ == "?":
+                masked += 1
+            elif a_ != b_:
+                diffs.append(k)
+                break
+    name = "CurvatureCorrection.correct_array (order 0: stage pipeline, resize_factor, grid cache incl. other-shape history), breakpoint-aware"
+    _c[name] = {"cases": len(lines), "disagreements": len(diffs), "masked_cells": masked, "cells": total}
+    for l in lines:
+        ctx.count((name, l))
+    if diffs:
+        k = min(diffs, key=lambda q: len(lines[q]))
+        ctx.mark("CORR-BROKEN", {"correspondence": name, "request": lines[k], "model": got[k][:300], "impl": str(impl[k])[:300], "n_diffs": len(diffs)})
+        ctx.log(f"correspondence {name}: {len(diffs)} disagreements, e.g. {lines[k][:200]} model={got[k][:120]} impl={str(impl[k])[:120]}")
+    # --- IlluminationCorrection
+    lines, impl = [], []
+    for i in range(ctx.pick(18, 150)):
+        dt = ["u8", "f64", "u16"][i % 3]
+        rgb = bool((i // 3) % 2)
+        n0, n1 = rng.randint(1, 3), rng.randint(1, 3)
+        a = rand_payload(rng, dt, (n0, n1, 3))
+        if dt == "f64":
+            a = np.abs(a)
+        nsc = 3 if rgb else rng.choice([1, 3])
+        hi = 12 if dt == "f64" else 8  # integer images: scalings <= 1, the store into the integer array must not overflow
+        sc = [np.array([float(Fr(rng.randint(2, hi), 8)) for _ in range(n0 * n1)]).reshape(n0, n1) for _ in range(nsc)]
+        lines.append(f"illum {int(rgb)} {dt} {n0} {n1} " + " ".join(fmt(v) for v in a.ravel()) + f" {nsc} "
+                     + " ".join(" ".join(fmt(v) for v in x.ravel()) for x in sc))
+
+        def run():
+            c = d.IlluminationCorrection()
+            c.colorspace = "rgb" if rgb else rng.choice(["hsl-scalar", "rgb-scalar", "gray"])
+            c.local_scaling = [d.ScalarImage(x, dimensions=[1.0, 1.0]) for x in sc]
+            out = c.correct_array(a.copy())
+            return f"{DTN.get(out.dtype, out.dtype)} {n0} {n1} | " + " ".join(fmt(v) for v in out.ravel())
+
+        r = call(run)
+        impl.append(repr(r) if isinstance(r, Raised) else r)
+    ctx.correspond("IlluminationCorrection.correct_array (channel choice by colour space, integer store), exact", lines, impl)
+    # --- DriftCorrection (active) with the translation estimate stubbed
+    lines, impl = [], []
+    for i in range(ctx.pick(18, 150)):
+        dt = ["u8", "f64", "u16"][i % 3]
+        shape = (rng.randint(1, 5), rng.randint(1, 5))
+        bshape = shape if i % 3 else (rng.randint(1, 5), rng.randint(1, 5))
+        found = i % 7 != 0
+        tx, ty = rng.randint(-3, 3), rng.randint(-3, 3)
+        a = rand_payload(rng, dt, shape)
+        lines.append(f"drift active {int(found)} {tx} {ty} {bshape[0]} {bshape[1]} {dt} {arr_tokens(a)}")
+
+        def run():
+            c = d.DriftCorrection(base=np.zeros(bshape, dtype=a.dtype), config={"active": True})
+            seen = {}
+
+            def est(img_src, img_dst, *args, **kw):
+                seen["src"], seen["dst"] = np.array(img_src).copy(), np.asarray(img_dst).shape
+                return (np.array([[1, 0, tx], [0, 1, ty]], dtype=np.float64), True) if found else (None, False)
+
+            c.translation_estimator.find_effective_translation = est
+            out = c.correct_array(a.copy())
+            if not np.array_equal(seen.get("src"), a) or seen.get("dst") != tuple(bshape):
+                raise TypeError("the estimator was not handed the image and the base")
+            return show_arr(out)
+
+        r = call(run)
+        impl.append(repr(r) if isinstance(r, Raised) else r)
+    ctx.correspond("DriftCorrection (active) with stubbed translation estimate: warp onto the base canvas / ValueError, exact", lines, impl)
+
+
 # ---------------------------------------------------------------------------- concrete corrections
 
 
@@ -849,6 +1019,43 @@ def check_case(d, case, cfgs=None, rngmod=None):
     return bad
 
 
+def check_history_case(d, case, cfgs=None):
+    """purity across calls: a correction object that has already been applied to other arrays (also of ANOTHER shape) must return
+    what an identically configured fresh object returns"""
+    import random
+
+    cfgs = cfgs or {c["name"]: c for c in configs(d, random.Random(0))}
+    cfg = cfgs[case["config"]]
+    rng = random.Random(case["seed"])
+    name = cfg["name"]
+    shapes = [tuple(x) for x in case["shapes"]]
+    ch = (3,) if cfg["channels"] == (3,) else ()
+    arrs = [np.random.default_rng(case["seed"] + k).random(sh + ch).astype(case["dtype"]) for k, sh in enumerate(shapes)]
+    info = dict(shape=shapes[0] + ch, dtype=case["dtype"], p=[rng.uniform(-1.0, 1.0) for _ in range(3)])
+    corr = call(cfg["build"], info)
+    if isinstance(corr, Raised):
+        return []
+    for a in arrs[:-1]:
+        r = call(corr.correct_array, a.copy())
+        if isinstance(r, Raised):
+            return []
+    got = call(corr.correct_array, arrs[-1].copy())
+    info2 = dict(info, shape=shapes[-1] + ch)
+    fresh = call(cfg["build"], info2)
+    exp = call(fresh.correct_array, arrs[-1].copy()) if not isinstance(fresh, Raised) else fresh
+    if isinstance(exp, Raised):
+        return []
+    same_shape = all(sh == shapes[-1] for sh in shapes)
+    tag = "same-shape" if same_shape else "other-shape"
+    if isinstance(got, Raised):
+        return [(f"C10:{name}:history({tag}):raises", f"after {len(arrs) - 1} earlier call(s) on shapes {shapes[:-1]} the call on {shapes[-1]} raises {got}")]
+    if got.shape != exp.shape or not np.allclose(got, exp, rtol=0, atol=cfg["tol"] or 0, equal_nan=True):
+        return [(f"C10:{name}:history({tag}):result-depends-on-earlier-calls",
+                 f"after earlier call(s) on shapes {shapes[:-1]} the result for shape {shapes[-1]} is {got.shape}, a fresh object gives {exp.shape}"
+                 + ("" if got.shape != exp.shape else " with other values"))]
+    return []
+
+
 def oracle(ctx, d):
     cfgl = configs(d, ctx.rng)
     cfgs = {c["name"]: c for c in cfgl}
@@ -869,6 +1076,18 @@ def oracle(ctx, d):
                             skipped[sig] = what
                             continue
                         ctx.fail(sig, what, {"case": case, "observed": what})
+    # history dependence (objects with caches): shape-independent configurations, re-used on the same and on another shape
+    for cname in ("curvature(neutral)", "curvature", "curvature(empty config)", "type(float64)", "drift(inactive)", "translation"):
+        if cname not in cfgs or cname.startswith("illumination"):
+            continue
+        for rep in range(ctx.pick(2, 8)):
+            lo = max(cfgs[cname]["min_extent"], 2)
+            sh = (ctx.rng.randint(lo, 7), ctx.rng.randint(lo, 7))
+            other = sh if rep % 2 == 0 else (ctx.rng.randint(lo, 7), ctx.rng.randint(lo, 7))
+            case = dict(history=True, config=cname, shapes=[list(other), list(sh)], dtype="float64", seed=ctx.rng.randrange(10**9))
+            ctx.count(("history", cname, rep))
+            for sig, what in check_history_case(d, case, cfgs):
+                ctx.fail(sig, what, {"case": case, "observed": what})
     for i in range(ctx.pick(48, 240)):
         c = heap_toy_case(ctx.rng, i)
         ctx.count(("heap-toy", i))
@@ -885,7 +1104,7 @@ def replay(data):
     if case is None:
         print(json.dumps(data, indent=1)[:4000])
         return 0
-    bad = check_heap_case(d, case) if case.get("heap_toy") else check_case(d, case)
+    bad = check_heap_case(d, case) if case.get("heap_toy") else check_history_case(d, case) if case.get("history") else check_case(d, case)
     print("case:", json.dumps(case)[:600])
     for sig, what in bad:
         print("FAILS:", sig, "--", what)
@@ -902,12 +1121,13 @@ def run(ctx):
     for f in sorted((pathlib.Path(__file__).resolve().parents[2] / "corpus" / "C10").glob("*.json")):
         case = json.loads(f.read_text()).get("replay", {}).get("case")
         if case:
-            for sig, what in (check_heap_case(d, case) if case.get("heap_toy") else check_case(d, case)):
+            for sig, what in (check_heap_case(d, case) if case.get("heap_toy") else check_history_case(d, case) if case.get("history") else check_case(d, case)):
                 ctx.fail(sig, what, {"case": case, "observed": what})
     ctx.prove("C10")
     corr_workflow(ctx, d)
     corr_heap_workflow(ctx, d)
     corr_concrete(ctx, d)
+    corr_round4(ctx, d)
     oracle(ctx, d)
     ctx.cov["explanation"] = CLAIM["text"]
     ctx.cov["rule"] = ("every registered correction configuration x supported input kinds x overwrite off/on x (quick 1 / thorough 6) random "
